@@ -242,6 +242,7 @@ class TwinRandom(object):
         self.us = []
         self.choice_calls = []
         self.poisson_draws = []
+        self.poisson_lams = []
         self.other_draws = []
         self.budget = budget
 
@@ -270,6 +271,7 @@ class TwinRandom(object):
         res = self._rs.poisson(lam, size)
         self._twin.poisson(lam, size)
         self.poisson_draws.append(res)
+        self.poisson_lams.append(lam)
         return res
 
     def __getattr__(self, name):
